@@ -27,6 +27,12 @@ STORES = {
 }
 
 PROPS = {
+    "C19": {
+        "tiers": tiers(3000, 100000),
+        "rule": "rapid-generated batches of 1-12 state-protocol messages built with all eight helper constructors x option subsets (WithTxID, WithTimestamp, WithAutoTimestamp under the simulated clock, WithEntityType incl. the empty override) x three entity types x seven keys (unicode, separator, quotes), published on a persistent bus over MemoryStore / SQLite / durable-streams and read back; the stored JSON is checked for the protocol's field names and the built content; each event is then applied to a materializer, a third of them after corrupting the stored bytes on the read path (bit flip, truncation, torn tail, bytes of another event, 23 hand-written malformed documents, random byte strings). Oracle: Apply never panics; an error leaves collections and LastOffset untouched; success changes state only as an independent decoder of the protocol says. Every run is non-trivial; distinct = (scenario, history hash).",
+        "components": dict(REAL_BUS, **STORES),
+        "assumptions": COMMON_ASSUME + ["this property has no schedule dimension: the simulator contributes the fault placement (which stored event is corrupted, how) and the simulated clock; the byte-string half is generator-driven input testing hosted in the harness (stated in DESIGN.md)"],
+    },
     "C18": {
         "tiers": tiers(3000, 100000),
         "rule": "rapid-generated message log (1-40 insert/update/delete/reset/snapshot-start/snapshot-end messages built with the public helpers over three registered entity types - one with a custom state type name, values with omitempty fields and maps - plus an unregistered type, keys including several that contain the separator), published on a persistent bus (MemoryStore or SQLite; streaming or paged with batch 1-5), strict or non-strict materializer, consumed by Materializer.Replay in 1-3 sessions: each but the last is interrupted by an injected store read failure after a drawn number of events and the next resumes from LastOffset; compared with a last-writer-wins fold and with a twin materializer that applies the log in one session. Non-trivial: more than one message; distinct = (scenario, history hash).",
